@@ -84,6 +84,11 @@ func (vc *VC) evalCall1(s *State, call *ast.CallExpr, want int) []*Term {
 				args := vc.evalArgs(s, call, info.TypeOf(lit).(*types.Signature))
 				return vc.inlineLit(s, lit, args, call)
 			}
+			if lit := vc.globalFuncLit(o, info); lit != nil {
+				vc.prog.Assumed["package-level function variable "+o.Pkg().Name()+"."+o.Name()+" keeps its initial value (never assigned or address-taken in the module; checked syntactically)"] = true
+				args := vc.evalArgs(s, call, info.TypeOf(lit).(*types.Signature))
+				return vc.inlineLit(s, lit, args, call)
+			}
 		}
 	case *ast.FuncLit:
 		args := vc.evalArgs(s, call, info.TypeOf(f).(*types.Signature))
@@ -316,8 +321,10 @@ func (vc *VC) evalConversion(s *State, call *ast.CallExpr, to types.Type) *Term 
 		return r
 	case isSliceSort(fs) && ts == SStr:
 		vc.prog.Assumed["string<->[]byte conversion preserves bytes (uninterpreted bijection)"] = true
-		r := App("conv.bytes2str", ts, sliceElems(v), sliceLen(v))
+		r := s.name("b2s", App("conv.bytes2str", ts, sliceElems(v), sliceLen(v)))
 		s.assume(Eq(strLen(r), sliceLen(v)))
+		bi := BoundVar("bi", SInt)
+		s.assume(Forall([]*Term{bi}, Implies(And(Le(IntLit(0), bi), Lt(bi, sliceLen(v))), Eq(strAt(r, bi), Select(sliceElems(v), bi))), []*Term{strAt(r, bi)}))
 		return r
 	case fs == SInt && ts == SStr:
 		return App("conv.rune2str", SStr, v)
@@ -938,3 +945,17 @@ func relFile(f string) string {
 }
 
 var _ = token.NoPos
+
+// globalFuncLit: o is a package-level variable of the current package that is never assigned or address-taken in the
+// module and is initialised with a function literal that captures nothing (package scope): calls go to that literal.
+func (vc *VC) globalFuncLit(o *types.Var, info *types.Info) *ast.FuncLit {
+	if o.Pkg() == nil || o.Parent() != o.Pkg().Scope() || vc.prog.MutableGlobals[o] || vc.prog.AddrTakenGlobals[o] {
+		return nil
+	}
+	p, ok := vc.prog.GlobalInfo[o]
+	if !ok || p.TypesInfo != info {
+		return nil
+	}
+	lit, _ := ast.Unparen(vc.prog.GlobalInit[o]).(*ast.FuncLit)
+	return lit
+}
